@@ -69,12 +69,39 @@ template <typename T> struct elem;
 template <> struct elem<int>    { static int    make(long long v) { return (int)v; }       static long long show(int x) { return x; } };
 template <> struct elem<double> { static double make(long long v) { return 0.5 * (double)v; } static long long show(double x) { return (long long)(x * 2.0); } };
 
+// counting non-trivial element type: every constructor registers `this`, the destructor unregisters it;
+// an assignment to / destruction of an unregistered object and a construction over a registered one are counted.
+namespace trk {
+static std::set<const void*> live;
+static long bad_assign = 0, over = 0, bad_dtor = 0, leaked = 0;
+inline void reset() { live.clear(); bad_assign = over = bad_dtor = leaked = 0; }
+inline long bad() { return bad_assign + over + bad_dtor; }
+// a container object's storage is given up: what is still registered inside it was never destroyed
+inline void sweep(const void* p, size_t n) {
+    const char* b = (const char*)p;
+    for (auto it = live.begin(); it != live.end();) {
+        const char* q = (const char*)*it;
+        if (q >= b && q < b + n) { it = live.erase(it); leaked++; } else ++it;
+    }
+}
+}
+struct tracked {
+    int v;
+    tracked() : v(0) { if (!trk::live.insert(this).second) trk::over++; }
+    tracked(int x) : v(x) { if (!trk::live.insert(this).second) trk::over++; }
+    tracked(const tracked& o) : v(o.v) { if (!trk::live.insert(this).second) trk::over++; }
+    tracked& operator=(const tracked& o) { if (!trk::live.count(this)) trk::bad_assign++; v = o.v; return *this; }
+    ~tracked() { if (!trk::live.erase(this)) trk::bad_dtor++; }
+};
+template <> struct elem<tracked> { static tracked make(long long v) { return tracked((int)v); } static long long show(const tracked& x) { return x.v; } };
+
 template <typename T> static bool is_poison(const T& x) {
     const unsigned char* b = reinterpret_cast<const unsigned char*>(&x);
     for (size_t i = 0; i < sizeof(T); i++) if (b[i] != c19::POISON) return false;
     return true;
 }
 template <typename T> static std::string cell(const T& x) { return is_poison(x) ? std::string("u") : std::to_string(elem<T>::show(x)); }
+template <> std::string cell<tracked>(const tracked& x) { return is_poison(x.v) ? std::string("u") : std::to_string((long long)x.v); }
 
 // ---------------------------------------------------------------------------------------------
 // operations
@@ -261,7 +288,90 @@ template <template <typename> class K> static std::string by_elem(const std::str
     throw bad_args("elem");
 }
 
+// ---------------------------------------------------------------------------------------------
+// utl::maybe / utl::either histories
+// ---------------------------------------------------------------------------------------------
+template <typename E> struct right_of { using type = double; static double make(long long v) { return 0.5 * (double)v; } static long long show(double x) { return (long long)(x * 2.0); } };
+template <> struct right_of<double> { using type = int; static int make(long long v) { return (int)v; } static long long show(int x) { return x; } };
+
+template <typename E> struct maybe_kind {
+    using T = E; using C = utl::maybe<E>;
+    static void mk(void* p) { new (p) C(); }
+    static void mkL(void* p, long long v) { T t = elem<T>::make(v); new (p) C(t); }
+    static void mkR(void* p, long long) { new (p) C(utl::nothing); }
+    static void setL(C& c, long long v) { T t = elem<T>::make(v); c = t; }
+    static void setR(C& c, long long) { c = utl::nothing; }
+    static bool isL(const C& c) { return c.has_value(); }
+    static void writeL(C& c, long long v) { T t = elem<T>::make(v); *c = t; }
+    static std::string show(const C& c) { return c.has_value() ? "J" + cell<T>(*c) : std::string("N"); }
+};
+template <typename E> struct either_kind {
+    using T = E; using R = typename right_of<E>::type; using C = utl::either<E, R>;
+    static void mk(void* p) { new (p) C(); }
+    static void mkL(void* p, long long v) { T t = elem<T>::make(v); new (p) C(t); }
+    static void mkR(void* p, long long v) { R r = right_of<E>::make(v); new (p) C(r); }
+    static void setL(C& c, long long v) { T t = elem<T>::make(v); c = t; }
+    static void setR(C& c, long long v) { R r = right_of<E>::make(v); c = r; }
+    static bool isL(const C& c) { return c.index() == 0; }
+    static void writeL(C& c, long long v) { T t = elem<T>::make(v); *c.template get_if<T>() = t; }
+    static std::string show(const C& c) {
+        if (c.index() == 0) return "L" + cell<T>(*c.template get_if<T>());
+        R r = *c.template get_if<R>();
+        return "R" + (is_poison(r) ? std::string("u") : std::to_string(right_of<E>::show(r)));
+    }
+};
+
+template <typename K> static std::string run_ehistory(const std::vector<op_t>& ops) {
+    using C = typename K::C;
+    c19::allocator_reset(); trk::reset();
+    alignas(16) static unsigned char store[NSLOTS][sizeof(C)];
+    bool live[NSLOTS] = {false, false};
+    auto obj = [&](int k) -> C& { return *std::launder(reinterpret_cast<C*>(store[k])); };
+    auto fresh = [&](int k) -> void* { memset(store[k], 0, sizeof(C)); return store[k]; };
+    auto drop = [&](int k) { obj(k).~C(); trk::sweep(store[k], sizeof(C)); live[k] = false; };
+    std::string S, I;
+    for (size_t t = 0; t < ops.size(); t++) {
+        const op_t& o = ops[t];
+        auto arg = [&](size_t i) -> long long { if (i >= o.a.size()) throw bad_args("op arity"); return o.a[i]; };
+        int s = (int)arg(0);
+        if (s < 0 || s >= NSLOTS) throw bad_args("slot");
+        bool valid = true; std::string note;
+        if (o.name == "mk")          { valid = !live[s]; if (valid) { K::mk(fresh(s)); live[s] = true; } }
+        else if (o.name == "mkL")    { valid = !live[s]; if (valid) { K::mkL(fresh(s), arg(1)); live[s] = true; } }
+        else if (o.name == "mkR")    { valid = !live[s]; if (valid) { K::mkR(fresh(s), arg(1)); live[s] = true; } }
+        else if (o.name == "copy")   { int r = (int)arg(1); if (r < 0 || r >= NSLOTS) throw bad_args("slot"); valid = !live[s] && live[r]; if (valid) { new (fresh(s)) C(obj(r)); live[s] = true; } }
+        else if (o.name == "assign") { int r = (int)arg(1); if (r < 0 || r >= NSLOTS) throw bad_args("slot"); valid = live[s] && live[r]; if (valid) { C& d = obj(s); const C& src = obj(r); d = src; } }
+        else if (o.name == "setL")   { valid = live[s]; if (valid) K::setL(obj(s), arg(1)); }
+        else if (o.name == "setR")   { valid = live[s]; if (valid) K::setR(obj(s), arg(1)); }
+        else if (o.name == "writeL") { valid = live[s] && K::isL(obj(s)); if (valid) K::writeL(obj(s), arg(1)); }
+        else if (o.name == "read")   { valid = live[s]; if (valid) note = " r=" + K::show(obj(s)); }
+        else if (o.name == "destroy"){ valid = live[s]; if (valid) drop(s); }
+        else throw bad_args("op");
+        if (t) { S += "|"; I += "|"; }
+        S += (live[0] ? K::show(obj(0)) : std::string("-")) + "/" + (live[1] ? K::show(obj(1)) : std::string("-")) + (valid ? note : std::string("!"));
+        I += "live=" + std::to_string((long)trk::live.size() + trk::leaked) + ",b=" + std::to_string(trk::bad());
+    }
+    for (int k = 0; k < NSLOTS; k++) if (live[k]) drop(k);
+    std::string fin = "leak=" + std::to_string(c19::g_allocs - c19::g_frees) + " live=" + std::to_string((long)trk::live.size() + trk::leaked)
+                    + " bad=" + std::to_string(trk::bad() + c19::g_badfree);
+    c19::allocator_reset(); trk::reset();
+    return "ok " + S + " # " + I + " # " + fin;
+}
+template <template <typename> class K> static std::string by_eelem(const std::string& e, const std::vector<op_t>& ops) {
+    if (e == "int") return run_ehistory<K<int>>(ops);
+    if (e == "double") return run_ehistory<K<double>>(ops);
+    if (e == "tracked") return run_ehistory<K<tracked>>(ops);
+    throw bad_args("elem");
+}
+
 std::string handle(const std::string& op, const Args& a) {
+    if (op == "ehist") {
+        std::string kind = get(a, "kind"), e = has(a, "elem") ? get(a, "elem") : "int";
+        auto ops = parse_ops(get(a, "ops"));
+        if (kind == "maybe") return by_eelem<maybe_kind>(e, ops);
+        if (kind == "either") return by_eelem<either_kind>(e, ops);
+        return "unknown-op";
+    }
     if (op != "hist") return "unknown-op";
     std::string kind = get(a, "kind"), e = has(a, "elem") ? get(a, "elem") : "int";
     auto ops = parse_ops(get(a, "ops"));
